@@ -48,3 +48,50 @@ def trunc(x):
 def near_int(x):
     """within 1e-14 (relative) of an integer (the exemption allowed by C01)"""
     return abs(x - int(x)) <= 1e-14 * max(abs(x), abs(int(x)))
+
+
+# ---- C20: median filter ------------------------------------------------------------------
+# "medianFilter returns a list of the input's length whose element i is the median of element i and its
+# floor(window/2) neighbours on either side, with the series extended by its edge values when padding is on
+# and the element left unchanged near the edges when it is off"
+
+import statistics
+
+
+def medianFilter(dist, window, useEdgePadding):
+    off = window // 2
+    n = len(dist)
+    return [(statistics.median([dist[max(0, min(x + k, n - 1))] for k in range(-off, off + 1)])
+             if (useEdgePadding or (0 <= x - off and x + off < n)) else dist[x])
+            for x in range(n)]
+
+
+# ---- C19: KlattGrid value modification -------------------------------------------------------
+# "modifySubtiers/modifyValues apply the given function to every value of the addressed tiers exactly once
+# and leave all times and all other tiers untouched"
+
+
+def KlattPointTier_modifyValues(self, modFunc):
+    self._entries = [(t, modFunc(float(v))) for t, v in self.entries]
+
+
+def toIntOrFloat(val):
+    if float(val) == float(int(val)):
+        return int(val)
+    return float(val)
+
+
+# ---- C03: blank removal --------------------------------------------------------------------
+# "With includeEmptyIntervals=False exactly the entries whose label is empty are omitted and nothing else changes"
+
+
+def removeBlanks(tier):
+    tier["entries"] = [e for e in tier["entries"] if e[-1] != ""]
+
+
+# ---- C14: the threshold comparison of dejitter ------------------------------------------------
+# "moves a timestamp ... if and only if it lies within maxDifference of it" (1e-14 relative slack = rounding noise)
+
+
+def isclose(a, b, rel_tol=1e-14, abs_tol=0.0):
+    return abs(a - b) <= max(rel_tol * max(abs(a), abs(b)), abs_tol)
